@@ -285,7 +285,7 @@ def stub_inproc(k: int, rewriting: bool) -> Tuple[Any, str, str]:
     outs, errs, rcs = [], [], []
     for mod in MODS:
         out, err = io.StringIO(), io.StringIO()
-        argv = ["-c", "mcfg:CONFIG"] + ([] if rewriting else ["--disable-type-rewriting"]) + ["stub", mod]
+        argv = ["-c", "mcfg:fresh()"] + ([] if rewriting else ["--disable-type-rewriting"]) + ["stub", mod]
         try:
             rc = cli.main(argv, out, err)
         except Exception as e:  # noqa: BLE001
